@@ -109,6 +109,9 @@ def run_case(case, ctx):
     il, xl, zs = sp.ilines(), sp.xlines(), sp.samples()
     fam = 'default' if tuple(sp.bs[:2]) == (4, 4) else 'zslice' if sp.bs[2] == 4 else 'general'
     strata.add('layout:' + fam)
+    import zlib
+    reuse = zlib.crc32(case['id'].encode()) % 2 == 1
+    shared_c = []
     for q in range(case['nreq']):
         reqs = [rand_req(n, b, rng) for n, b in zip((nI, nX, nZ), sp.bs)]
         if all(r[0] is None for r in reqs):
@@ -128,12 +131,31 @@ def run_case(case, ctx):
             return (axis[r[0]].item() if hasattr(axis[r[0]], 'item') else axis[r[0]], stop.item() if hasattr(stop, 'item') else stop)
         try:
             with env.quiet():
-                with SgzCropper(path) as c:
+                # the cropper is a reader too, and one cropper object may write several crops: what it read or wrote before must not
+                # show in the next output (half of the cases keep one object for all their requests; a third of the requests read first)
+                if reuse and shared_c:
+                    c = shared_c[0]
+                else:
+                    c = SgzCropper(path)
+                    if reuse:
+                        shared_c.append(c)
+                try:
+                    if q % 3 == 1:
+                        if sp.stored:
+                            c.get_tracefield_values(sp.stored[-1])
+                        c.gen_trace_header(sp.ntr - 1)
+                        c.read_inline(nI - 1)
+                        strata.add('cropper-read-before-crop')
                     if form == 'index' or nI < 2 or nX < 2 or nZ < 2:
                         form = 'index'
                         c.write_cropped_file_by_indexes(out, ir, xr, zr)
                     else:
                         c.write_cropped_file_by_coords(out, to_coord(ir, il, 0), to_coord(xr, xl, 1), to_coord(zr, rz, 2))
+                finally:
+                    if not reuse:
+                        c.close()
+                if reuse and q > 0:
+                    strata.add('cropper-reused')
         except Exception as e:  # noqa
             bad.append({'sig': 'crop:valid-request-raises-%s' % type(e).__name__,
                         'detail': 'layout %s bs %s shape %s request %s (%s form): %r' % (fam, sp.bs, sp.shape, (ir, xr, zr), form, e)})
@@ -170,6 +192,11 @@ def run_case(case, ctx):
                 if any(h.get(k) != int(t['fields'][k][tr]) for k in KEYS):
                     bad.append({'sig': 'crop:trace-header-differs-from-source-trace', 'detail': 'trace %d of box %s' % (tr, W)})
                     break
+    for c_ in shared_c:
+        try:
+            c_.close()
+        except Exception:  # noqa
+            pass
     # invalid requests
     for axis, n in enumerate((nI, nX, nZ)):
         for req, cls in invalid_reqs(n, rng):
@@ -217,7 +244,7 @@ def run_case(case, ctx):
 def finalize(tier, cases, results, counters, strata):
     reasons = []
     need = ['layout:default', 'layout:zslice', 'layout:general', 'form:index', 'form:coords', 'invalid:empty', 'invalid:inverted', 'invalid:outside-high',
-            'invalid:outside-low', 'invalid:none', 'invalid:absent', 'refuse-2d', 'refuse-irregular'] + ['req-%s:%s' % (a, k) for a in 'ixz' for k in ('aligned', 'unaligned', 'tail', 'full', 'none', 'one')]
+            'invalid:outside-low', 'invalid:none', 'invalid:absent', 'refuse-2d', 'refuse-irregular', 'cropper-reused', 'cropper-read-before-crop'] + ['req-%s:%s' % (a, k) for a in 'ixz' for k in ('aligned', 'unaligned', 'tail', 'full', 'none', 'one')]
     for s in need:
         if s not in strata:
             reasons.append('required stratum not hit: ' + s)
